@@ -358,6 +358,56 @@ def rule_r3(ctx, rep):
     rep.floor("mutators checked for validate-then-mutate", 4)
 
 
+def rule_r4(ctx, rep):
+    """document order of the descendant queries: find_descendant / find_all_descendants are a pre-order walk -- the only
+    queries they make are the recursive call on the loop variable of the one loop over the node's own children, after the
+    loop variable itself has been tested"""
+    prog = ctx.prog
+    w = ctx.world
+    nm = w.nm
+    for name in ("find_descendant", "find_all_descendants"):
+        fi = prog.func(f"{NODE_Q}.{name}")
+        rep.touch(fi)
+        ft = w.types(fi)
+        selfp = fi.params[0]
+        loops = [n for n in ast.walk(fi.node) if isinstance(n, ast.For) and isinstance(n.iter, ast.Attribute) and nm.canon(n.iter.attr) == "_children"
+                 and isinstance(n.iter.value, ast.Name) and n.iter.value.id == selfp and isinstance(n.target, ast.Name)]
+        rep.count("descendant-query loops", len(loops))
+        ok = len(loops) == 1
+        if ok:
+            lp = loops[0]
+            lv = lp.target.id
+            for n in ast.walk(fi.node):
+                if isinstance(n, ast.Call):
+                    for tg in w.resolve_call(ft, n):
+                        if tg.func is not None and tg.func.cls is not None and tg.func.cls.qname == NODE_Q and (tg.func.name.startswith("find_") or tg.func.name == "get_ancestry"):
+                            recv = tg.bound_recv
+                            good = tg.func.qname == fi.qname and isinstance(recv, ast.Name) and recv.id == lv and any(x is n for x in ast.walk(lp))
+                            rep.oblige(("R4", name, norm(n)[:60]), good)
+                            if not good:
+                                rep.add("R4", fi.qname, n, f"`{name}` consults `{norm(n.func)}` besides its own pre-order recursion over each child: the result "
+                                        f"is no longer the first / all matches in document order", fi.loc(n))
+            # the name test on the loop variable precedes the recursion in the loop body
+            first_test = None
+            first_rec = None
+            for n in ast.walk(lp):
+                if isinstance(n, ast.Compare) and any(isinstance(x, ast.Attribute) and isinstance(x.value, ast.Name) and x.value.id == lv and nm.canon(x.attr) == "_name"
+                                                      for x in ast.walk(n)) and first_test is None:
+                    first_test = n
+                if isinstance(n, ast.Call) and isinstance(n.func, ast.Attribute) and n.func.attr == name and first_rec is None:
+                    first_rec = n
+            good = first_test is not None and first_rec is not None and (first_test.lineno, first_test.col_offset) < (first_rec.lineno, first_rec.col_offset)
+            rep.oblige(("R4", name, "order"), good)
+            if not good:
+                rep.add("R4", fi.qname, lp.iter, f"`{name}` does not test a child before descending into it (pre-order)", fi.loc(lp))
+            bad = [x for x in ast.walk(lp) if isinstance(x, ast.Continue)]
+            if bad:
+                rep.add("R4", fi.qname, bad[0], "a child is skipped by the descendant walk", fi.loc(bad[0]))
+        else:
+            rep.add("R4", fi.qname, "loop over the children", f"`{name}` is not one loop over the node's own children", fi.loc())
+    rep.floor("descendant-query loops", 2)
+
+
 def run(ctx, rep):
     rep.explanation = (
         "link pairing: every statement that puts an object into a child list is accompanied, on all paths (marker dataflow, "
@@ -365,10 +415,10 @@ def run(ctx, rep):
         "subscript is proven in bounds for its exact offset (guard facts), the returned variable follows every swap on all paths, "
         "and only the documented ValueError escapes, before any write; for add/remove/replace/shift no failure point is "
         "reachable after a write to the tree (validate-then-mutate)")
-    rep.rules_run = ["R1", "R2", "R3"]
+    rep.rules_run = ["R1", "R2", "R3", "R4"]
     rep.assumptions += ["NOT decided: equivalence with an ordered-list model over all histories; results of the queries",
                         "a write to the incoming node before it is attached (new_child.parent = self) is not tree state yet"]
     only = getattr(rep, "only", None)
-    for name, fn in (("R1", rule_r1), ("R2", rule_r2), ("R3", rule_r3)):
+    for name, fn in (("R1", rule_r1), ("R2", rule_r2), ("R3", rule_r3), ("R4", rule_r4)):
         if only in (None, name):
             fn(ctx, rep)
